@@ -176,7 +176,17 @@ func ViewBytes(b []byte) (string, error) {
 		fs, _ := Decode(d)
 		return fmt.Sprintf("%q/%q", str(Scalar(fs, 1)), str(Scalar(fs, 2)))
 	}
-	for _, f := range top {
+	// records are rendered grouped by field number (the order of different fields on the wire
+	// carries no meaning in protobuf; only the order within one repeated field does)
+	var grouped []Field
+	for num := 1; num <= 5; num++ {
+		for _, f := range top {
+			if f.Num == num {
+				grouped = append(grouped, f)
+			}
+		}
+	}
+	for _, f := range grouped {
 		switch f.Num {
 		case 1:
 			fmt.Fprintf(&sb, "ST %s\n", vt(f.Data))
